@@ -230,6 +230,16 @@ def impl(op, backend):
         a0, b0 = dt.date.fromordinal(oa), dt.date.fromordinal(ob)
         r = p.Date(a0.year, a0.month, a0.day) - (b0 if nat else p.Date(b0.year, b0.month, b0.day))
         return "ok %d %d" % (_tyc(r), _us_any(r))
+    if k == "dtd":
+        # Date +/- a plain timedelta (with a sub-day part of either sign): what the native date gives, as a pendulum Date
+        _, o, tdus, sub = op
+        d0 = dt.date.fromordinal(o)
+        td = dt.timedelta(microseconds=tdus)
+        x = p.Date(d0.year, d0.month, d0.day)
+        r = (x - td) if sub == 1 else (td + x) if sub == 2 else (x + td)
+        if type(r) is not p.Date:
+            return "err WrongType:" + type(r).__name__
+        return "ok %d" % r.toordinal()
     if k == "trepl":
         _, tod, zr, fold, h, m, s_, us, ta, fa = op
         tz = D.tzobj(zr)
@@ -741,6 +751,15 @@ def oracle(op, out, backend):
         return _o_comb(op, out)
     if k in ("dford", "drepl", "dsub"):
         return _o_dateops(op, out)
+    if k == "dtd":
+        _, o, tdus, sub = op
+        td = dt.timedelta(microseconds=tdus)
+        try:
+            n = dt.date.fromordinal(o) - td if sub == 1 else dt.date.fromordinal(o) + td
+            exp = "ok %d" % n.toordinal()
+        except OverflowError:
+            exp = "err OverflowError"
+        return None if out == exp else f"Date {'-' if sub == 1 else '+'} timedelta({tdus} us): observed {out}, native date gives {exp}"
     if k == "trepl":
         return _o_trepl(op, out)
     if k == "tsub":
@@ -864,6 +883,9 @@ def gen_ops(rng, tier):
         ob = min(max(ob, 1), 3652059)
         yield ("date", oa, ob)
         yield ("dsub", oa, ob, i % 2)
+        tdus = rng.choice((rng.randint(-400, 400) * DAY, rng.randint(-400 * DAY, 400 * DAY), rng.choice((1, -1)) * rng.choice((1, 3600 * 10**6, DAY - 1, DAY + 1)),
+                           rng.randint(-3, 3) * DAY + rng.choice((1, -1, 43200 * 10**6))))
+        yield ("dtd", oa, tdus, i % 3)
         yield ("dford", oa if i % 7 else rng.choice((0, -1, -400, 3652060, 3652061, 4000000, oa)))
         nd = dt.date.fromordinal(ob)
         pick = lambda good, bad: "x" if rng.random() < 0.4 else (good if rng.random() < 0.8 else rng.choice(bad))   # noqa: E731
@@ -913,6 +935,8 @@ def _wc(zr, w):
 
 
 def tag(op, out):
+    if op[0] == "dtd":
+        return "dtd:" + ("whole-days" if op[2] % DAY == 0 else "sub-day-part")
     k = op[0]
     if k in ("u", "ty"):
         return "%s:%s:fold%d" % (k, _wc(op[1], op[2]), op[3])
